@@ -16,6 +16,12 @@
 import json, os
 import vf
 
+# Open finding C07-topair-lowered-index (paramtext.ToPair cuts the token at the index of '=' in its LOWER-CASED
+# form): while golib has it, the masking generators keep runes whose lower-case form has another UTF-8 length out
+# of keys and bare words (in values they are always used).  Set to True once the repair is in the tree under check
+# (and the finding is listed as fixed): the generators then explore that region too.
+EXPLORE_LOWERLEN = True
+
 
 def drift(run, out, meta, traces):
     """the transcribed tables of the spec against the real code; only meaningful when the verdict pass is clean"""
@@ -63,7 +69,7 @@ def body(run):
     run.mc("MC_UdpAlias", cfg="MC_UdpAlias_scratch_alias.cfg", expect_violation="Stable", workers=1)
     run.mc("MC_UdpMask", cfg="MC_UdpMask_thorough.cfg" if th else "MC_UdpMask.cfg", coverage=not th, workers=run.pick(4, 16))
     run.mc("MC_UdpMask", cfg="MC_UdpMask_capital.cfg", expect_violation="CapitalAlsoMasked", workers=1)
-    out, meta = run.drive("c07")
+    out, meta = run.drive("c07", args={"c07_lowerlen": "explore"} if EXPLORE_LOWERLEN else None)
     run.absorb(meta)
     if not meta.get("extra", {}).get("pool_reacquired_objects"):
         raise vf.MachineryError("no object ever came back from the pool: the residue check would be vacuous")
@@ -90,6 +96,8 @@ def body(run):
         "a failed ToPack/ReadPack is judged only by what later CreatePack calls hand out (the pack it took is invisible; the spec's bag over-approximates the real pool); booleans are not scanned in the error-path histories",
         "UdpRelayPack.Len is out-of-band (set from the datagram length before Read)",
         "password key = the exact lowercase key; capitalised variants are counted as information only; a value cannot contain its own separator (it reads as two tokens)",
+        "connection strings are cut at ' ', ';' and '=' only; every other character (quotes, backslashes, brackets, escapes, control characters, multi-byte runes, invalid UTF-8) is an ordinary character of a key or value; white space other than ' ' stands only inside an atom; a password value counts as left if the whole atom, an '='-separated part or its plain core is found in any text field",
+        "open finding C07-topair-lowered-index: while EXPLORE_LOWERLEN is False runes whose lower-case form has another UTF-8 length (and invalid UTF-8) are kept out of keys and bare words (always used in values)",
         "pool histories run on one P with the collector off so that sync.Pool returns released objects deterministically; booleans are judged by a twin run with the opposite fill value",
         "text lengths stay within the 16-bit range; Process panics of packs on malformed Data (UdpActiveStackPack) are reported as information only",
     ]
